@@ -57,6 +57,19 @@ static void h_split(char * s, struct h_line * l)
     }
 }
 
+/* every callback context ("priv") the drivers hand to the library is this cookie; a callback that
+ * receives anything else stops the case ("badpriv" line, then the parent reports a fault) */
+static char h_cookie_obj;
+#define H_COOKIE ((void *)&h_cookie_obj)
+static void h_check_priv(const void * p)
+{
+    if (p != H_COOKIE) {
+        printf("badpriv\n");
+        fflush(stdout);
+        _exit(3);
+    }
+}
+
 typedef void h_case_fn(const struct h_case *);
 
 static int h_nofork = 0;
